@@ -150,7 +150,86 @@ func installNatives(it *Interp) {
 		panic(undecided{"Error() of " + describe(args[0])})
 	}
 	n["fmt.Sprintf"] = func(it *Interp, args []Value) []Value { return []Value{it.sprintf(args)} }
-	n["fmt.Errorf"] = func(it *Interp, args []Value) []Value { return []Value{&Ext{"error: " + it.sprintf(args)}} }
+	n["fmt.Errorf"] = func(it *Interp, args []Value) []Value {
+		// %w wraps an error: the message is that of %v; error operands print their message
+		a2 := append([]Value{}, args...)
+		if f, ok := a2[0].(string); ok {
+			a2[0] = strings.ReplaceAll(f, "%w", "%v")
+		}
+		for i := 1; i < len(a2); i++ {
+			if e, ok := a2[i].(*Ext); ok && strings.HasPrefix(e.desc, "error: ") {
+				a2[i] = strings.TrimPrefix(e.desc, "error: ")
+			}
+		}
+		return []Value{&Ext{"error: " + it.sprintf(a2)}}
+	}
+	n["cmp.Compare"] = func(it *Interp, args []Value) []Value {
+		switch a := args[0].(type) {
+		case string:
+			return []Value{int64(strings.Compare(a, args[1].(string)))}
+		case int64:
+			b := args[1].(int64)
+			switch {
+			case a < b:
+				return []Value{int64(-1)}
+			case a > b:
+				return []Value{int64(1)}
+			}
+			return []Value{int64(0)}
+		}
+		panic(undecided{"cmp.Compare on " + describe(args[0])})
+	}
+	n["cmp.Or"] = func(it *Interp, args []Value) []Value {
+		all := expandVariadic(args)
+		for _, a := range all {
+			switch x := a.(type) {
+			case int64:
+				if x != 0 {
+					return []Value{a}
+				}
+			case string:
+				if x != "" {
+					return []Value{a}
+				}
+			case bool:
+				if x {
+					return []Value{a}
+				}
+			default:
+				panic(undecided{"cmp.Or on " + describe(a)})
+			}
+		}
+		if len(all) > 0 {
+			return []Value{all[len(all)-1]}
+		}
+		panic(undecided{"cmp.Or without arguments"})
+	}
+	n["cmp.Less"] = func(it *Interp, args []Value) []Value {
+		switch a := args[0].(type) {
+		case string:
+			return []Value{a < args[1].(string)}
+		case int64:
+			return []Value{a < args[1].(int64)}
+		}
+		panic(undecided{"cmp.Less on " + describe(args[0])})
+	}
+	n["errors.New"] = func(it *Interp, args []Value) []Value {
+		m, _ := args[0].(string)
+		return []Value{&Ext{"error: " + m}}
+	}
+	n["errors.Join"] = func(it *Interp, args []Value) []Value {
+		// the non-nil errors, one message per line; nil when there is none
+		var msgs []string
+		for _, a := range expandVariadic(args) {
+			if e, ok := a.(*Ext); ok && strings.HasPrefix(e.desc, "error: ") {
+				msgs = append(msgs, strings.TrimPrefix(e.desc, "error: "))
+			}
+		}
+		if len(msgs) == 0 {
+			return []Value{Nil{}}
+		}
+		return []Value{&Ext{"error: " + strings.Join(msgs, "\n")}}
+	}
 	n["fmt.Fprintln"] = func(it *Interp, args []Value) []Value { return []Value{int64(0), Nil{}} }
 	n["strconv.Quote"] = func(it *Interp, args []Value) []Value { return []Value{strconv.Quote(args[0].(string))} }
 	n["slices.Collect"] = func(it *Interp, args []Value) []Value {
@@ -310,6 +389,40 @@ func installNatives(it *Interp) {
 			if i == 0 || !valuesEqual(e, s.elems[i-1]) {
 				out.elems = append(out.elems, e)
 			}
+		}
+		return []Value{out}
+	}
+	n["slices.CompactFunc"] = func(it *Interp, args []Value) []Value {
+		s, ok := args[0].(*SliceV)
+		if !ok || s == nil {
+			return []Value{args[0]}
+		}
+		out := &SliceV{elems: []Value{}}
+		for i, e := range s.elems {
+			if i > 0 {
+				// like the library: compared with the last element kept
+				res := it.callValue(nil, args[1], []Value{out.elems[len(out.elems)-1], e})
+				if b, ok := res[0].(bool); ok && b {
+					continue
+				}
+			}
+			out.elems = append(out.elems, e)
+		}
+		return []Value{out}
+	}
+	n["slices.SortStableFunc"] = n["slices.SortFunc"]
+	n["slices.DeleteFunc"] = func(it *Interp, args []Value) []Value {
+		s, ok := args[0].(*SliceV)
+		if !ok || s == nil {
+			return []Value{args[0]}
+		}
+		out := &SliceV{elems: []Value{}}
+		for _, e := range s.elems {
+			res := it.callValue(nil, args[1], []Value{e})
+			if b, ok := res[0].(bool); ok && b {
+				continue
+			}
+			out.elems = append(out.elems, e)
 		}
 		return []Value{out}
 	}
@@ -828,7 +941,9 @@ func findRegion(r *Repo) *region {
 			rg.compileLit, rg.compileVar = lit, obj
 		case ps == "(*node)" && rg.printRule == nil:
 			rg.printRule = lit
-		case ps == "(uint)" && assignsMapTrue(lit):
+		case ps == "(uint)" && (printsGoto(lit) || assignsMapTrue(lit)) && rg.jumpLit == nil:
+			// the jump helper by role: the func(uint) that prints a goto (and records, in whatever
+			// bookkeeping the emitter uses, that the label is referred to)
 			rg.jumpLit, rg.jumpVar = lit, obj
 		}
 	}
@@ -877,6 +992,17 @@ func callsFprintf(body ast.Node, info *types.Info) bool {
 					}
 				}
 			}
+		}
+		return true
+	})
+	return found
+}
+
+func printsGoto(lit *ast.FuncLit) bool {
+	found := false
+	ast.Inspect(lit.Body, func(n ast.Node) bool {
+		if bl, ok := n.(*ast.BasicLit); ok && bl.Kind == token.STRING && strings.Contains(bl.Value, "goto ") {
+			found = true
 		}
 		return true
 	})
@@ -1064,15 +1190,46 @@ func (m *model) runStmts(rg *region, stmts []ast.Stmt) (em *emission) {
 			return nil, false
 		}
 	}
-	// warn collector
-	if fd, _ := findDecl(it, "Tree", "warn"); fd != nil {
-		it.hooks[fd] = func(it *Interp, cl *Closure, args []Value) ([]Value, bool) {
-			if e, ok := args[0].(*Ext); ok {
-				em.Warnings = append(em.Warnings, e.desc)
-			}
-			return nil, true
+	// diagnostics: what the tree has accumulated when the evaluated statements end (the
+	// method that records a warning runs as written; a later reset of the accumulated
+	// error loses what was recorded before it, exactly as in the generator)
+	defer func() {
+		if em == nil {
+			return
 		}
-	}
+		// the diagnostics live in the tree's error-typed field(s): one error wrapping the others, or
+		// a list of errors joined later
+		var collect func(v Value)
+		collect = func(v Value) {
+			switch x := v.(type) {
+			case *Ext:
+				if strings.HasPrefix(x.desc, "error: ") {
+					for _, w := range strings.Split(strings.TrimPrefix(x.desc, "error: "), "\n") {
+						w = strings.TrimPrefix(w, "warning: ")
+						if w != "" {
+							em.Warnings = append(em.Warnings, "error: "+w)
+						}
+					}
+				}
+			case *SliceV:
+				if x != nil {
+					for _, e := range x.elems {
+						collect(e)
+					}
+				}
+			}
+		}
+		for i := 0; i < m.tree.st.NumFields(); i++ {
+			ft := m.tree.st.Field(i).Type()
+			if sl, ok := ft.Underlying().(*types.Slice); ok {
+				ft = sl.Elem()
+			}
+			if !isErrorType(ft) {
+				continue
+			}
+			collect(m.tree.fields[i].v)
+		}
+	}()
 	// labelLast contract: whenever the emitter closure returns on a real node in
 	// the real pass, its result must say whether the text it appended ends with a label.
 	type frame struct{ start int }
